@@ -421,6 +421,13 @@ def decompose(reg, style, maxext, seed):
     return out
 
 
+def _case_twin(name):
+    for i in range(len(name) - 1, -1, -1):
+        if name[i].isalpha():
+            return name[:i] + name[i].swapcase() + name[i + 1:]
+    return None
+
+
 def gen_fields(src, nmin=1, nmax=6, tag="w", must=()):
     n = src.draw(f"{tag}.nfields", max(nmin, len(must)), nmax)
     names = list(must)
@@ -431,6 +438,13 @@ def gen_fields(src, nmin=1, nmax=6, tag="w", must=()):
         k += 1
         if cand not in names:
             names.append(cand)
+    if len(names) > len(must) + 1 and src.flag(f"{tag}.fcase", 6):
+        # two names that differ only by the case of one letter (species Co / CO, fields Temp / temp): legal,
+        # and distinct for anything that treats names as the exact strings of the Header
+        j = src.draw(f"{tag}.fcase.of", 0, len(names) - 2)
+        twin = _case_twin(names[j])
+        if twin is not None and twin not in names:
+            names[-1] = twin
     if len(names) > 1 and src.flag(f"{tag}.fshuffle"):
         rng = np.random.default_rng(src.draw(f"{tag}.fshseed", 0, 999))
         names = [names[i] for i in rng.permutation(len(names))]
@@ -537,6 +551,9 @@ def gen_scale_world(src, cls, tag="w"):
       manyboxes  144 boxes of 2^3 (or 2^2) in 1-2 files (72+ boxes per file, not a multiple of 64)
       farcorner  5 levels, fine boxes at indices >= 1000 in every direction (FAB headers > 100 bytes)
       manyfields 40-45 fields on a tiny mesh
+      megabox    one box of 128 x 128 x 66 cells (> 2**20 values per component)
+      longdomain 6 levels over a 16384 x 4 x 2 domain: three 4-cell wide boxes per fine level at the far
+                 end, x indices up to 524287 (index comparisons with a relative tolerance go blind there)
     """
     m = PlotModel()
     m.time = 0.5
@@ -573,6 +590,29 @@ def gen_scale_world(src, cls, tag="w"):
             hi = 2 * hi + 1
             m.boxes.append([(tuple([hi - 7] * 3), tuple([hi] * 3)), ((hi - 15, hi - 7, hi - 7), (hi - 8, hi, hi))])
         m.fields = ["phi"]
+    elif cls == "megabox":
+        # one box of 128 x 128 x 66 = 1 081 344 cells: more than 2**20 values per component and not a
+        # multiple of it (chunked readers), 8.6 MB per component
+        m.ndims = 3
+        m.nlev = 1
+        m.geo_low, m.geo_high = [0.0, 0.0, 0.0], [1.0, 1.0, 66.0 / 128.0]
+        m.grid_sizes = [(128, 128, 66)]
+        m.dx = [[1.0 / 128] * 3]
+        m.boxes = [[((0, 0, 0), (127, 127, 65))]]
+        m.fields = ["density"]
+    elif cls == "longdomain":
+        m.ndims = 3
+        m.nlev = 6
+        m.geo_low, m.geo_high = [0.0, 0.0, 0.0], [16384.0, 4.0, 2.0]
+        m.grid_sizes = [(16384 * 2 ** l, 4 * 2 ** l, 2 * 2 ** l) for l in range(6)]
+        m.dx = [[1.0 / 2 ** l] * 3 for l in range(6)]
+        m.boxes = [[((4096 * k, 0, 0), (4096 * k + 4095, 3, 1)) for k in range(4)]]
+        for l in range(1, 6):
+            hi = 16384 * 2 ** l - 1
+            # A and B are neighbours along x; C sits beside A and has a free slot beside B to move into
+            m.boxes.append([((hi - 7, 0, 0), (hi - 4, 3, 3)), ((hi - 3, 0, 0), (hi, 3, 3)),
+                            ((hi - 7, 4, 0), (hi - 4, 7, 3))])
+        m.fields = ["phi", "psi"][:src.draw(f"{tag}.scale.nf", 1, 2)]
     else:
         m.ndims = 2 + src.draw(f"{tag}.scale.dims3", 0, 1)
         m.nlev = 1
@@ -583,7 +623,7 @@ def gen_scale_world(src, cls, tag="w"):
         m.boxes = [[(tuple([0] * m.ndims), tuple([1, 3, 3][:m.ndims])), (tuple([2] + [0] * (m.ndims - 1)), tuple([3] * m.ndims))]]
         m.fields = [f"field_{k:02d}" for k in range(src.draw(f"{tag}.scale.nfields", 40, 45))]
     m.steps = [7] * m.nlev
-    gen_layout(src, m, tag=tag, max_files=2 if cls == "manyboxes" else 3)
+    gen_layout(src, m, tag=tag, max_files=2 if cls in ("manyboxes", "longdomain") else 3)
     fill_random(m, int(rng.integers(0, 10 ** 6)))
     return m
 
@@ -593,7 +633,7 @@ def gen_world(src, tag="w", special_ok=True, scale=(), scale_rate=24, lowprec_ok
         k = src.draw(f"{tag}.scale", 0, scale_rate * len(scale) - 1)
         if k < len(scale) and not (mesh_kw.get("force_3d") and scale[k] in ()) :
             cls = scale[k]
-            if not (mesh_kw.get("force_2d") and cls in ("hugebox", "farcorner")):
+            if not (mesh_kw.get("force_2d") and cls in ("hugebox", "farcorner", "longdomain", "megabox")):
                 return gen_scale_world(src, cls, tag)
     # swarm flag: a share of worlds is "big" (more levels, boxes, files, fields) so that count- and
     # size-dependent behaviour is exercised; the rest stays tiny and fast
